@@ -1,3 +1,6 @@
+// `sierradb_verif` is a verification-only cfg (never set in normal builds).
+#![allow(unexpected_cfgs)]
+
 use std::collections::HashMap;
 use std::collections::hash_map::Entry;
 use std::mem;
@@ -214,6 +217,14 @@ impl WriterThreadPool {
             .await
             .map_err(|_| WriteError::WriterThreadNotRunning { bucket_id })?;
         let mut full_append = reply_rx.await.map_err(|_| WriteError::NoThreadReply)??;
+
+        #[cfg(sierradb_verif)]
+        verif_hooks::point(
+            "wtp.append.replied",
+            bucket_id as u64,
+            full_append.write_offset,
+            0,
+        );
 
         full_append
             .sync_rx
@@ -518,6 +529,16 @@ impl Worker {
             .has_recent_activity
             .store(true, Ordering::Relaxed);
 
+        #[cfg(sierradb_verif)]
+        if let Ok(append) = &res {
+            verif_hooks::point(
+                "wtp.reply",
+                ((bucket_id as u64) << 32) | writer_set.bucket_segment_id.segment_id as u64,
+                writer_set.writer.write_offset(),
+                ((partition_id as u64) << 48) | (append.first_partition_sequence & ((1 << 48) - 1)),
+            );
+        }
+
         let _ = reply_tx.send(res.map(|append| FullAppendResult {
             append,
             write_offset: writer_set.writer.write_offset(),
@@ -697,6 +718,15 @@ impl WriterSet {
         }
         self.sync_tx.send_replace(write_offset);
 
+        #[cfg(sierradb_verif)]
+        verif_hooks::point(
+            "wtp.published",
+            ((self.bucket_segment_id.bucket_id as u64) << 32)
+                | self.bucket_segment_id.segment_id as u64,
+            write_offset,
+            0,
+        );
+
         Ok(())
     }
 
@@ -803,6 +833,15 @@ impl WriterSet {
             )
         };
 
+        #[cfg(sierradb_verif)]
+        verif_hooks::point(
+            "wtp.rollover.swapped",
+            ((self.bucket_segment_id.bucket_id as u64) << 32)
+                | self.bucket_segment_id.segment_id as u64,
+            0,
+            0,
+        );
+
         self.reader_pool.add_bucket_segment(
             old_bucket_segment_id,
             &old_reader,
@@ -812,6 +851,15 @@ impl WriterSet {
         );
         self.reader_pool
             .add_bucket_segment(self.bucket_segment_id, &self.reader, None, None, None);
+
+        #[cfg(sierradb_verif)]
+        verif_hooks::point(
+            "wtp.rollover.installed",
+            ((self.bucket_segment_id.bucket_id as u64) << 32)
+                | self.bucket_segment_id.segment_id as u64,
+            0,
+            0,
+        );
 
         Ok(())
     }
@@ -1304,6 +1352,42 @@ fn validate_partition_sequence(
                 })
             }
         }
+    }
+}
+
+/// Verification hooks (only with `--cfg sierradb_verif`): a process-global callback invoked at
+/// named points of the writer pool (`wtp.append.replied` on the client task between the
+/// worker's reply and the wait for the covering sync; `wtp.reply`, `wtp.published`,
+/// `wtp.rollover.swapped`, `wtp.rollover.installed` on the writer thread), which may block to
+/// hold the caller there, and a re-export of the private bucket -> writer thread routing.
+#[cfg(sierradb_verif)]
+pub mod verif_hooks {
+    use std::sync::{Arc, RwLock};
+
+    use crate::bucket::BucketId;
+
+    pub type PointFn = Arc<dyn Fn(&'static str, u64, u64, u64) + Send + Sync>;
+
+    static POINT: RwLock<Option<PointFn>> = RwLock::new(None);
+
+    /// Install (or remove) the callback invoked at every point.
+    pub fn set_point(f: Option<PointFn>) {
+        *POINT.write().unwrap_or_else(|e| e.into_inner()) = f;
+    }
+
+    pub(super) fn point(name: &'static str, a: u64, b: u64, c: u64) {
+        let f = POINT.read().unwrap_or_else(|e| e.into_inner()).clone();
+        if let Some(f) = f {
+            f(name, a, b, c);
+        }
+    }
+
+    pub fn bucket_id_to_thread_id(
+        bucket_id: BucketId,
+        bucket_ids: &[BucketId],
+        num_threads: u16,
+    ) -> Option<u16> {
+        super::bucket_id_to_thread_id(bucket_id, bucket_ids, num_threads)
     }
 }
 
